@@ -17,6 +17,15 @@ HISTORY = {
     "C08-r2m3": "missed on its first screening (no pre-try local of the handling function was captured); detected after handler_intact_scenarios captured one",
     "C02-r2m2": "missed by C02 on its first screening (the capture-order product was replayed by C04 / C06 only); C02 replays it now",
     "C02-r2m3": "missed by C02 on its first screening (a C01-style defect: the class's superclass is not traced); detected after every scenario replay was run with reclaimed objects quarantined and C02 got the class product",
+    "C07-r2m1": "missed on its first screening (no constructor left by a bare return from inside a try statement); detected after the class scenarios got one",
+    "C07-r2m2": "missed by C07 on its first screening (C18's sources had the protocol members as fields, the class scenarios did not); detected after the `protocol-field` action was added",
+    "C07-r2m3": "missed on its first screening (no class body reused a static name for an instance method); detected after the class scenarios did",
+    "C18-r2m1": "missed on its first screening (range bounds of 2^32 and above are outside the machine's exact numbers); detected after translated_range_scenarios was added",
+    "C18-r2m3": "missed on its first screening (no sequence was longer than a handful of elements); detected after long_run_scenarios was added",
+    "C12-r2m3": "missed on its first screening (the values inserted were always distinct strings); detected after the value-replacement product was added",
+    "C14-r2m1": "missed on its first screening (no module path carried the file extension); detected after module_path_scenarios was added",
+    "C14-r2m2": "missed on its first screening (no import ran in the deepest frames); detected after module_path_scenarios was added",
+    "C14-r2m3": "missed on its first screening (no aliased import had a path without a file name); detected after module_path_scenarios was added (the parser twin's inputs got such paths too)",
     "C07-m1": "the patch was read before its screening: Machine.tla resolved `derives` on instances to the native unconditionally and no scenario overrode it; both were changed first, the change was then caught on its first screening",
     "C04-m2": "the patch was read before its screening; the interpolation layouts were added first",
     "C05-m2": "the patch was read before its screening; the shift-count cases were added first",
